@@ -1065,6 +1065,11 @@ fn http_c17(rep: &mut Report, tier: &str, seed: u64) {
             if let Some(c) = comps.iter().find(|c| c["id"].as_str() == Some(fid.as_str())) {
                 let ln = c["leader_notifications"].as_array().cloned().unwrap_or_default();
                 let retried = !c["follower_notifications"].as_array().map(|a| a.is_empty()).unwrap_or(true) || ln.iter().any(|n| n["type"] == "success");
+                if !retried && fr["status"].as_u64().unwrap_or(0) >= 500 {
+                    // transient status: the HTTP client of the server retries it; not completed yet
+                    rep.inconclusive("HTTP layer: a request answered with a transient status had not been retried successfully when the scenario ended");
+                    continue;
+                }
                 if !retried {
                     final_failure = true;
                     if has_dest {
